@@ -245,6 +245,77 @@ pub fn run_script(check: &'static dyn Check, script: Value, keep_full_log: bool)
     }
 }
 
+/// Execute `script` in a forked child process: every run starts from pristine process-global state
+/// (lazily initialised statics such as hash seeds, id counters), exactly like `replay` in a fresh
+/// process. The parent never runs a simulation itself, so it is single-threaded when it forks.
+pub fn run_script_isolated(check: &'static dyn Check, script: Value, keep_full_log: bool) -> Outcome {
+    use std::io::Read;
+    use std::os::unix::io::FromRawFd;
+    let mut fds = [0i32; 2];
+    unsafe {
+        if libc::pipe(fds.as_mut_ptr()) != 0 {
+            return run_script(check, script, keep_full_log);
+        }
+    }
+    let pid = unsafe { libc::fork() };
+    if pid < 0 {
+        return run_script(check, script, keep_full_log);
+    }
+    if pid == 0 {
+        // child; a wall-clock watchdog turns a busy loop into a reported failure instead of a hung batch
+        unsafe { libc::close(fds[0]) };
+        let limit: u32 = std::env::var("RNSIM_RUN_TIMEOUT_S").ok().and_then(|v| v.parse().ok()).unwrap_or(120);
+        unsafe { libc::alarm(limit) };
+        let o = run_script(check, script, keep_full_log);
+        let data = serde_json::to_vec(&o).unwrap_or_default();
+        let mut off = 0usize;
+        while off < data.len() {
+            let n = unsafe { libc::write(fds[1], data[off..].as_ptr() as *const libc::c_void, data.len() - off) };
+            if n <= 0 {
+                break;
+            }
+            off += n as usize;
+        }
+        unsafe {
+            libc::close(fds[1]);
+            libc::_exit(0);
+        }
+    }
+    unsafe { libc::close(fds[1]) };
+    let mut f = unsafe { std::fs::File::from_raw_fd(fds[0]) };
+    let mut buf = Vec::new();
+    let _ = f.read_to_end(&mut buf);
+    let mut status = 0i32;
+    unsafe { libc::waitpid(pid, &mut status, 0) };
+    match serde_json::from_slice::<Outcome>(&buf) {
+        Ok(o) => o,
+        Err(_) => {
+            let seed = script.get("seed").and_then(|v| v.as_u64()).unwrap_or(0);
+            Outcome {
+                check: check.id().to_string(),
+                seed,
+                ok: false,
+                clause: Some("harness.child_died".to_string()),
+                msg: Some(format!("simulation child process ended without a result (wait status {}; 14 = killed by the wall-clock watchdog: the run did not finish, i.e. something spins without simulated time advancing)", status)),
+                ev_hash: String::new(),
+                ev_count: 0,
+                sim_us: 0,
+                wall_us: 0,
+                counters: BTreeMap::new(),
+                digest: String::new(),
+                nontrivial: false,
+                steps: 0,
+                info: json!({}),
+                findings: vec![],
+                script: Some(script),
+                ev_tail: None,
+                ev_full: None,
+                panic: None,
+            }
+        }
+    }
+}
+
 /// Let every runnable task run to idle and every issued disk mutation complete.
 /// On the paused clock a 1 ms sleep returns only after the runtime went idle.
 pub async fn settle() {
@@ -281,7 +352,7 @@ pub fn shrink(check: &'static dyn Check, script: Value, clause: &str, budget_run
     let mut runs = 0usize;
     let try_script = |s: &Value, runs: &mut usize| -> bool {
         *runs += 1;
-        let o = run_script(check, s.clone(), false);
+        let o = run_script_isolated(check, s.clone(), false);
         same_failure(&o, clause)
     };
     // 1. ddmin over steps
